@@ -20,7 +20,7 @@ NT_RULE = ('id collections of 0-60 ids from 1-3 prefixes (plain, containing the 
 REQUIRED_ORACLES = ['I1', 'I2', 'I3', 'I4']
 REQUIRED_CLASSES = ['ids:empty', 'ids:multi_prefix', 'ids:gap', 'ids:duplicate', 'ids:prefix_has_delim',
                     'ids:empty_prefix', 'ids:leading_delim', 'ids:pad_other', 'ids:as_id_attr', 'ids:as_name_attr',
-                    'ids:bad_suffix', 'ids:non_str', 'ids:numbering_shared_pool', 'ids:numbering_suffix_in_prefix', 'wrap:single_line', 'wrap:multi_line', 'wrap:long_token', 'wrap:whitespace_char_in_token:multi_line',
+                    'ids:bad_suffix', 'ids:non_str', 'ids:numbering_shared_pool', 'ids:same_number_other_padding', 'ids:numbering_suffix_in_prefix', 'wrap:single_line', 'wrap:multi_line', 'wrap:long_token', 'wrap:whitespace_char_in_token:multi_line',
                     'wrap:dict', 'wrap:list', 'wrap:str', 'wrap:tuple']
 REQUIRED_PROBES = ['_get_omkm_range', 'obj_to_cti']
 ASSUMPTIONS = ['range notation "<p><a> to <p><b>" denotes every id <p><k>, a<=k<=b, written with the width of '
@@ -123,7 +123,21 @@ def generate(rng, tier):
                     w = rng.choice([1, 2, 3, 5, 6])
                     ids.append('%s%0*d' % (p, w, cur))
             pool = cur + 1
-        ids = ids[:60]
+        ids = ids[:57]
+        repad = False
+        if ids and rng.random() < 0.25:
+            # the same prefix and the same NUMBER written with another zero padding (ads_1 and ads_0001) are
+            # two different identifiers
+            for _ in range(rng.randint(1, 3)):
+                src = rng.choice(ids)
+                m_ = re.match(r'^(.*?)(\d+)$', src)
+                if not m_:
+                    continue
+                num = int(m_.group(2))
+                alt = '%s%0*d' % (m_.group(1), rng.choice([1, 2, 3, 4, 5, 6, 7]), num)
+                if alt not in ids and (m_.group(1) == '' or not m_.group(1)[-1].isdigit()):
+                    ids.append(alt)
+                    repad = True
         for _ in range(rng.choice([0, 0, 1, 3])):
             if ids:
                 ids.append(rng.choice(ids))
@@ -134,7 +148,7 @@ def generate(rng, tier):
         if not shuffle_:
             ids = sorted(ids, key=lambda x_: 0)      # keep generation order (groups adjacent, ascending)
         return {'kind': 'ids', 'ids': ids, 'delim': delim, 'as': rng.choice(['str', 'str', 'id', 'name']),
-                'numbering': numbering}
+                'numbering': numbering, 'repad': repad}
     if r < 0.62:
         why = rng.choice(['bad_suffix', 'non_str'])
         ids = ['r_%04d' % i for i in range(1, rng.randint(2, 6))]
@@ -275,6 +289,8 @@ def _ids(spec, ctx):
     ctx.cls('ids:as_%s_attr' % spec['as'] if spec['as'] != 'str' else 'ids:as_str')
     if spec.get('numbering'):
         ctx.cls('ids:numbering_' + spec['numbering'])
+    if spec.get('repad'):
+        ctx.cls('ids:same_number_other_padding')
     mech = {'pad': feats.get('pad', '4'), 'prefix': feats.get('prefix', 'plain')}
     want = set(spec['ids'])
     out = ctx.call('I1', dict(mech, form='str'), _get_omkm_range, objs=_wrap_objs(spec), delimiter=spec['delim'])
